@@ -44,6 +44,7 @@ REQUIRES_MAPQ = (r"len\(alignment_info\.read_exons\) <= 2", r"read_assignment\.a
 
 
 def vocab_reason(atom_text):
+    atom_text = re.sub(r"getattr\((\w+), '(\w+)', None\)", r"\1.\2", atom_text)
     for rx, why in VOCAB:
         if re.match(rx, atom_text):
             return why
@@ -154,7 +155,7 @@ def d1(prog, ctx):
             if not prev_write:
                 real.append((n, t))
         total += check_sites(ctx, q, f, f, real, rel)
-    g = prog.func(DSP, "ReadAssignmentLoader.get_next")
+    g = prog.func_inlined(DSP, "ReadAssignmentLoader.get_next")
     wl = [l for l in g.body if isinstance(l, ast.While)]
     if len(wl) != 1:
         raise AnalysisError("get_next: record loop not found")
@@ -232,7 +233,11 @@ def d3(prog, ctx):
     else:
         y = ys[0].value.value
         tgt = src(l.target)
-        if not (isinstance(y, ast.Call) and src(y.args[0]) == tgt and tgt in src(l.body[0])):
+        yargs = ([src(a) for a in y.args] + [src(k.value) for k in y.keywords]) if isinstance(y, ast.Call) else []
+        fetched = [st_ for st_ in l.body if isinstance(st_, ast.Assign) and "get_alignments(%s)" % tgt in src(st_.value)]
+        fetched_ok = any("get_alignments(%s)" % tgt in a for a in yargs) or \
+            any(src(st_.targets[0]) in yargs for st_ in fetched)
+        if not (isinstance(y, ast.Call) and tgt in yargs and fetched_ok):
             ctx.fail("D3", ys[0], f._qualname, src(ys[0]), "yielded result is not that of the loop's own region")
         else:
             ctx.ok("D3", "%s:%d" % (AP, l.lineno), "every split region is fetched and processed, no early exit")
@@ -471,6 +476,13 @@ class _Tiling:
                         self.env[t.id] = val
                 elif isinstance(t, ast.Subscript) and isinstance(t.value, ast.Name) and t.value.id == self.L:
                     raise _Unproved("element assignment %s is not modelled" % src(st))
+                elif isinstance(t, (ast.Tuple, ast.List)):
+                    for i, x in enumerate(t.elts):
+                        if isinstance(x, ast.Name):
+                            if isinstance(val, (ast.Tuple, ast.List)) and len(val.elts) == len(t.elts):
+                                self.env[x.id] = val.elts[i]
+                            else:
+                                self.env[x.id] = ast.Subscript(value=symexec.clone(val), slice=ast.Constant(value=i), ctx=ast.Load())
         elif isinstance(st, ast.AugAssign) and isinstance(st.target, ast.Name):
             old = self.env.get(st.target.id, ast.Name(id=st.target.id, ctx=ast.Load()))
             self.env[st.target.id] = ast.BinOp(left=old, op=st.op, right=self.ev(st.value))
@@ -620,6 +632,18 @@ def d6(prog, ctx):
         for p1 in bodies:
             for p2 in bodies:
                 t = _Tiling(L, g, fresh)
+                try:
+                    # aliases defined before the loop (bin size, region bounds ...) are known inside it
+                    for pre in f.body:
+                        if pre is lp:
+                            break
+                        if isinstance(pre, ast.Assign) and not any(isinstance(x, ast.Name) and x.id == L for tt in pre.targets for x in ast.walk(tt)):
+                            t.stmt(pre)
+                    assigned_in_loop = {x.id for x in ast.walk(lp) if isinstance(x, ast.Name) and isinstance(x.ctx, ast.Store)}
+                    for nm in assigned_in_loop:
+                        t.env.pop(nm, None)
+                except _Unproved:
+                    pass
                 t.appended = True
                 t.E = ast.Name(id="E_prev", ctx=ast.Load())
                 try:
@@ -706,14 +730,21 @@ def d7(prog, ctx):
     n = 0
     # (i) meaning of the two index tables, from add_alignment: key expression and first-occurrence guard
     keys = {}
+    defs = local_env(add)
     for st in walk_no_nested(add):
-        if isinstance(st, ast.If) and isinstance(st.test, ast.Compare) and isinstance(st.test.ops[0], ast.NotIn):
+        # first-occurrence store, written as  `if k not in T: T[k] = v`,  `if k in T: ... else: T[k] = v`  or  `T.setdefault(k, v)`
+        if isinstance(st, ast.If) and isinstance(st.test, ast.Compare) and isinstance(st.test.ops[0], (ast.NotIn, ast.In)):
             tbl = dotted(st.test.comparators[0])
-            stores = [s for s in st.body if isinstance(s, ast.Assign) and isinstance(s.targets[0], ast.Subscript)
-                      and dotted(s.targets[0].value) == tbl]
+            branch = st.body if isinstance(st.test.ops[0], ast.NotIn) else st.orelse
+            stores = [s for s in branch if isinstance(s, ast.Assign) and isinstance(s.targets[0], ast.Subscript)
+                      and dotted(s.targets[0].value) == tbl and src(s.targets[0].slice) == src(st.test.left)]
             if tbl and stores:
-                defs = local_env(add)
                 keys[tbl.split(".")[-1]] = (src(symexec.subst(st.test.left, defs)), src(stores[0].value))
+        elif isinstance(st, ast.Expr) and isinstance(st.value, ast.Call) and isinstance(st.value.func, ast.Attribute) \
+                and st.value.func.attr == "setdefault" and len(st.value.args) == 2:
+            tbl = dotted(st.value.func.value)
+            if tbl:
+                keys[tbl.split(".")[-1]] = (src(symexec.subst(st.value.args[0], defs)), src(st.value.args[1]))
     want = {"alignment_start_index": r"^alignment\.reference_start // [\w.]*COVERAGE_BIN$",
             "alignment_end_index": r"^\(alignment\.reference_end - 1\) // [\w.]*COVERAGE_BIN$"}
     for tbl, rx in want.items():
